@@ -643,10 +643,29 @@ Definition spec_field_types (e : entity) (cs : list component) : Prop :=
     /\ Forall2 field_as_declared (e_data e) (m_fields md).
 
 
+(* the same for the members: the nested message of every event, the request and response message of
+   every command method, the upsert message of every summary (after the upsert metadata) hold the
+   declared fields - name, type, repeated, key flags - in declaration order *)
+Definition spec_member_field_types (e : entity) (cs : list component) : Prop :=
+  (exists m, has_msg cs 0 m /\ m_name m = sp_name e "EventType"
+     /\ Forall2 (fun ev n => fst n = ev_name ev /\ Forall2 field_as_declared (ev_fields ev) (snd n))
+                (e_events e) (m_nested m))
+  /\ (forall c md, In c (e_commands e) -> In md (c_methods c) ->
+        (exists m, has_msg cs 1 m /\ m_name m = md_name md ++ bs "Request"
+                   /\ Forall2 field_as_declared (md_request md) (m_fields m))
+        /\ (forall r, md_response md = Some r ->
+              exists m, has_msg cs 1 m /\ m_name m = md_name md ++ bs "Response"
+                        /\ Forall2 field_as_declared r (m_fields m)))
+  /\ (forall s, In s (e_summaries e) ->
+        exists m up, has_msg cs 2 m /\ m_name m = sp_summary_name e s ++ bs "Message"
+                     /\ Forall2 field_as_declared (s_fields s) (tl (m_fields m)) /\ hd_error (m_fields m) = Some up
+                     /\ f_json up = bs "upsert").
+
 (* THE SPECIFICATION, all clauses *)
 Definition C17_spec_all (e : entity) (cs : list component) : Prop :=
   C17_spec e cs /\ spec_names e cs /\ spec_query_settings e cs
-  /\ spec_list_path e cs /\ spec_list_request e cs /\ spec_field_types e cs.
+  /\ spec_list_path e cs /\ spec_list_request e cs /\ spec_field_types e cs
+  /\ spec_member_field_types e cs.
 
 Definition in_quantifier (e : entity) : bool :=
   (* the options of one enum - the statuses, the options of an enum of the block or of an inline enum -
